@@ -82,6 +82,8 @@ pub struct RecvCase {
     pub fields: Vec<Field>,
     /// what the peer (when it is the client) advertises as ITS limit: decides whether a 431 fits
     pub peer_limit: Option<u64>,
+    /// client slots: the request goes through a CLONE of the SendRequest handle (a documented use)
+    pub via_clone: bool,
 }
 
 #[derive(Debug, Clone, Default, PartialEq, Eq)]
@@ -110,6 +112,7 @@ pub fn recv_run(case: &RecvCase) -> RecvOutcome {
         ex.spawn("main", server_main(net.clone(), b, ex.spawner(), drv.clone(), handlers.clone(), false, 0));
     } else {
         let (net2, msg2, sp, limit) = (net.clone(), client_msg.clone(), ex.spawner(), case.limit);
+        let via_clone = case.via_clone;
         ex.spawn("main", async move {
             let mut b = h3::client::builder();
             b.send_grease(false).max_field_section_size(limit);
@@ -119,7 +122,11 @@ pub fn recv_run(case: &RecvCase) -> RecvOutcome {
                 std::future::pending::<()>().await;
                 drop(conn);
             });
-            match sr.send_request(http::Request::get("https://a/").body(()).unwrap()).await {
+            let mut used = if via_clone { sr.clone() } else { sr.clone() };
+            if !via_clone {
+                std::mem::swap(&mut used, &mut sr); // the original handle itself
+            }
+            match used.send_request(http::Request::get("https://a/").body(()).unwrap()).await {
                 Ok(mut s) => {
                     let _ = s.finish().await;
                     client_reader(s, msg2.clone()).await;
@@ -127,7 +134,7 @@ pub fn recv_run(case: &RecvCase) -> RecvOutcome {
                 Err(e) => msg2.borrow_mut().head = format!("send_request:{}", stream_class(&e)),
             }
             std::future::pending::<()>().await;
-            drop(sr);
+            drop((sr, used));
         });
     }
     {
@@ -263,6 +270,9 @@ pub enum When {
     /// after the request stream exists at the endpoint (request sent / accepted and resolved), but before
     /// the oversized section is attempted: the limit in force at the attempt is the advertised one
     Between,
+    /// send_request only: the call is parked waiting for stream credit when the SETTINGS arrive and are applied;
+    /// the credit comes afterwards, so the HEADERS frame is written with the advertised limit in force
+    DuringOpen,
     After,
     Never,
 }
@@ -325,7 +335,12 @@ pub fn send_run(c: &SendCase) -> SendOutcome {
     fastrand::seed(1);
     let client_me = matches!(c.slot, Slot::Request | Slot::RequestTrailers);
     let (me, peer) = if client_me { (CLIENT, SERVER) } else { (SERVER, CLIENT) };
-    let net = Net::new(NetCfg::default());
+    let mut ncfg = NetCfg::default();
+    let during_open = c.when == When::DuringOpen;
+    if during_open {
+        ncfg.bidi_credit[CLIENT] = Some(0);
+    }
+    let net = Net::new(ncfg);
     let mut ex = Exec::new();
     let res = shared(String::new());
     let state: Shared<Option<Arc<h3::SharedState>>> = shared(None);
@@ -356,7 +371,7 @@ pub fn send_run(c: &SendCase) -> SendOutcome {
                 std::future::pending::<()>().await;
                 drop(conn);
             });
-            let early = between && slot == Slot::RequestTrailers;
+            let early = (between && slot == Slot::RequestTrailers) || during_open;
             let mut spins = 0;
             while !early && !*go2.borrow() && spins < 400 {
                 spins += 1;
@@ -481,6 +496,25 @@ pub fn send_run(c: &SendCase) -> SendOutcome {
                     }
                     *go.borrow_mut() = true;
                 }
+                When::DuringOpen => {
+                    // let the client call send_request and park on the missing stream credit
+                    for _ in 0..6 {
+                        yield_now().await;
+                    }
+                    net.raw_open(ctrl);
+                    net.raw_write(peer, ctrl, &settings);
+                    let mut spins = 0;
+                    loop {
+                        let applied = state.borrow().as_ref().map(|s| limit_is(&s.settings(), c.limit)).unwrap_or(false);
+                        if applied || spins > 300 {
+                            break;
+                        }
+                        spins += 1;
+                        yield_now().await;
+                    }
+                    net.raw_grant_bidi(CLIENT, 1);
+                    *go.borrow_mut() = true;
+                }
                 When::After => {
                     *go.borrow_mut() = true;
                     let mut spins = 0;
@@ -504,7 +538,7 @@ pub fn send_run(c: &SendCase) -> SendOutcome {
     SendOutcome {
         result,
         wire: net.wire(me, 0),
-        applied: matches!(c.when, When::Before | When::Between),
+        applied: matches!(c.when, When::Before | When::Between | When::DuringOpen),
         close_calls: net.close_calls(me).iter().map(|c| c.0).collect(),
         panics: q.panics,
     }
@@ -523,7 +557,7 @@ pub fn judge_send(c: &SendCase, o: &SendOutcome) -> Vec<(String, String)> {
     for (t, p) in &o.panics {
         out.push((format!("C10:send:{slot}:panic@{}", explore::panics::short_loc(p)), format!("{ctx}: task {t} panicked: {p}")));
     }
-    let in_force = if matches!(c.when, When::Before | When::Between) { c.limit } else { VARINT_MAX };
+    let in_force = if matches!(c.when, When::Before | When::Between | When::DuringOpen) { c.limit } else { VARINT_MAX };
     // 1. nothing over the limit in force on the wire
     let (frames, _) = rf::segment(&o.wire);
     let heads: Vec<&rf::Frame> = frames.iter().filter(|f| f.ty == rf::HEADERS).collect();
@@ -567,7 +601,7 @@ pub fn judge_send(c: &SendCase, o: &SendOutcome) -> Vec<(String, String)> {
         }
     } else if o.result != "ok" {
         out.push((
-            format!("C10:send:{slot}:refused-within-limit:{}", if matches!(c.when, When::Before | When::Between) { "limit-applied" } else { "before-settings" }),
+            format!("C10:send:{slot}:refused-within-limit:{}", if matches!(c.when, When::Before | When::Between | When::DuringOpen) { "limit-applied" } else { "before-settings" }),
             format!("{ctx}: limit in force {in_force}; send returned {:?}", o.result),
         ));
     }
@@ -581,7 +615,7 @@ pub fn run(args: &Args) -> i32 {
     let thorough = args.tier == Tier::Thorough;
     let mut rep = Report::new("C10", args.tier, args.seed, "model_checking");
     rep.exhaustive = true;
-    rep.rule = "receive: limits {0, 1, 33, 34, 35, 64, 89, 100, 167, 16383, 2^62-1} x sections whose RFC size sweeps L-2..L+2 (built by stretching one value and by adding a field, so the per-field +32 is exercised) plus the empty and the minimal section, reference-encoded (literal representations) and injected by a scripted peer as request headers, response headers, request trailers, response trailers; the 431 path with the client advertising {nothing, 41, 42, 43}. send: the same limits advertised by a scripted peer x application sections sweeping L-2..L+2 x {send_request, send_response, request trailers, response trailers} x SETTINGS delivered {before the stream exists (and applied), after the stream exists but before the attempt (and applied), after the attempt, never}; every HEADERS frame on the wire is decoded and measured by refimpl. states = distinct cases; non-trivial = cases at distance <= 2 from the limit.".into();
+    rep.rule = "receive: limits {0, 1, 33, 34, 35, 64, 89, 100, 167, 16383, 2^62-1} x sections whose RFC size sweeps L-2..L+2 (built by stretching one value and by adding a field, so the per-field +32 is exercised) plus the empty and the minimal section, reference-encoded (literal representations) and injected by a scripted peer as request headers, response headers, request trailers, response trailers (client side: through the original SendRequest handle and through a clone of it); the 431 path with the client advertising {nothing, 41, 42, 43}. send: the same limits advertised by a scripted peer x application sections sweeping L-2..L+2 x {send_request, send_response, request trailers, response trailers} x SETTINGS delivered {before the stream exists (and applied), after the stream exists but before the attempt (and applied), while send_request is parked waiting for stream credit (and applied before the credit comes), after the attempt, never}; every HEADERS frame on the wire is decoded and measured by refimpl. states = distinct cases; non-trivial = cases at distance <= 2 from the limit.".into();
     rep.assumptions = vec![
         "refimpl::fields::section_size = sum(name + value + 32) (RFC 9114 4.2.2)".into(),
         "the smallest request h3 delivers (CONNECT + :authority) has size 89: smaller limits are exercised at the boundary through trailers (regular fields only) and with always-oversize heads".into(),
@@ -608,7 +642,10 @@ pub fn run(args: &Args) -> i32 {
                     if let Some(fields) = section_of_size(slot, s, by_adding) {
                         let peers: &[Option<u64>] = if slot == Slot::Request { &[None, Some(41), Some(42), Some(43)] } else { &[None] };
                         for &p in peers {
-                            rcases.push(RecvCase { slot, limit: l, fields: fields.clone(), peer_limit: p });
+                            rcases.push(RecvCase { slot, limit: l, fields: fields.clone(), peer_limit: p, via_clone: false });
+                            if matches!(slot, Slot::Response | Slot::ResponseTrailers) {
+                                rcases.push(RecvCase { slot, limit: l, fields: fields.clone(), peer_limit: p, via_clone: true });
+                            }
                         }
                     }
                 }
@@ -632,7 +669,7 @@ pub fn run(args: &Args) -> i32 {
         h.u64(has_431(&o.wire) as u64);
         acc.outcomes.insert(h.finish());
         for (sig, msg) in judge_recv(c, &o) {
-            acc.violation(sig, msg, (0, c.fields.len()), || json!({"kind":"recv","slot":format!("{:?}", c.slot),"limit":c.limit.to_string(),"peer_limit":c.peer_limit.map(|p| p.to_string()),"fields":c.fields.iter().map(|(n,v)| json!([hex(n),hex(v)])).collect::<Vec<_>>()}));
+            acc.violation(sig, msg, (0, c.fields.len()), || json!({"kind":"recv","slot":format!("{:?}", c.slot),"limit":c.limit.to_string(),"peer_limit":c.peer_limit.map(|p| p.to_string()),"via_clone":c.via_clone,"fields":c.fields.iter().map(|(n,v)| json!([hex(n),hex(v)])).collect::<Vec<_>>()}));
         }
     });
     let mut scases: Vec<SendCase> = Vec::new();
@@ -655,7 +692,10 @@ pub fn run(args: &Args) -> i32 {
                     if api_fields(slot, s, by_adding).is_none() {
                         continue;
                     }
-                    for when in [When::Before, When::Between, When::After, When::Never] {
+                    for when in [When::Before, When::Between, When::DuringOpen, When::After, When::Never] {
+                        if when == When::DuringOpen && slot != Slot::Request {
+                            continue;
+                        }
                         scases.push(SendCase { slot, limit: l, size: s, by_adding, when });
                     }
                 }
@@ -707,6 +747,7 @@ pub fn replay(r: &Value) -> i32 {
                 slot: slot_from(r["slot"].as_str().unwrap()),
                 limit: r["limit"].as_str().unwrap().parse().unwrap(),
                 peer_limit: r["peer_limit"].as_str().map(|s| s.parse().unwrap()),
+                via_clone: r["via_clone"].as_bool().unwrap_or(false),
                 fields: r["fields"].as_array().unwrap().iter().map(|p| (explore::unhex(p[0].as_str().unwrap()), explore::unhex(p[1].as_str().unwrap()))).collect(),
             };
             let o = recv_run(&case);
@@ -722,6 +763,7 @@ pub fn replay(r: &Value) -> i32 {
                 when: match r["when"].as_str().unwrap() {
                     "Before" => When::Before,
                     "Between" => When::Between,
+                    "DuringOpen" => When::DuringOpen,
                     "After" => When::After,
                     _ => When::Never,
                 },
